@@ -21,6 +21,8 @@ Inductive case :=
     (* OrderFeeCalc for a bid: the settlement ratio fee options (fee denom, amount), [None] = error *)
 | CSellerFee (rs : list ratio) (pd : N) (p : Z) (obs : option (option Z))
     (* OrderFeeCalc for an ask: the seller ratio fee in the price denom (negative = malformed answer) *)
+| CExSplitCoins (dflt : Z) (tbl : list (N * Z)) (coins : list (N * Z)) (obs : option (list (N * Z)))
+    (* Keeper.CalculateExchangeSplit on a fee in several denoms with per-denom splits in the params *)
 | CMeter (ops : list mop) (nrec : N) (obs : Z * Z * list Z).
     (* one transaction's fee meter filled as the router does and paid out by DeductFeesDistributions:
        obs = (FeeConsumed, fee collector's gain, gain of recipient 0..nrec-1) *)
@@ -146,6 +148,21 @@ Definition check (c : case) : list string :=
          | Some (Some x) => tag (existsb (fun r => chargeb r p x) mine) "prop:seller_ratio_fee_is_ceiling"
          | Some None => tag (match rs with [] => true | _ => false end) "prop:seller_ratio_fee_missing"
          | None => tag (match mine with [] => true | _ => false end) "prop:seller_ratio_fee_failed"
+         end else [])
+  | CExSplitCoins dflt tbl coins obs =>
+      tag (opt_eqb (list_eqb nz_eqb) (Some (exchange_split_coins dflt tbl coins)) obs) "corr:exchange_split_coins" ++
+      (if (0 <=? dflt) && (dflt <=? 10000) && forallb (fun e => (0 <=? snd e) && (snd e <=? 10000)) tbl
+          && forallb (fun c => (0 <=? snd c) && in_range (snd c * 10000)) coins then
+         match obs with
+         | Some l =>
+             tag (forallb (fun e => existsb (fun c => N.eqb (fst c) (fst e)
+                                        && ceil_ok (snd c * split_for dflt tbl (fst e)) 10000 (snd e)
+                                        && (0 <? snd e) && (snd e <=? snd c)) coins) l)
+                 "prop:exchange_share_entry_is_not_the_ceiling_for_its_own_coin_and_split" ++
+             tag (forallb (fun c => (Z.eqb (snd c) 0) || (Z.eqb (split_for dflt tbl (fst c)) 0)
+                                    || existsb (fun e => N.eqb (fst e) (fst c)) l) coins)
+                 "prop:exchange_share_missing_for_a_fee_coin"
+         | None => ["prop:exchange_split_coins_failed"]
          end else [])
   | CMeter ops nrec (tot, modp, recs) =>
       let m := meter_run ops in
